@@ -196,6 +196,8 @@ fn cut(buf: &[u8]) {
     # Prefix (truncation) cases are NOT generated: CBMC needs more than 10 minutes and > 14 GB for a single call of the
     # real `skip` whose input ends on an item boundary (measured: `c7`, ``, `9b ff*8 01 02`), and cuts inside a head are
     # unpredictable (1 s .. > 5 min).  The truncation clause of C06 is reported as uncovered.
+    # Hostile declared counts (2^63, 2^64-1 ..) followed by a truncated element were tried as well (end of input inside a
+    # head): every such harness exceeded 400 s.  Error paths of the real `skip` are out of CBMC's reach here.
     open("/verif/units/kani/minicbor/skip_shapes.rs", "w").write("\n".join(out))
     print("shapes<=3:", n_a, "width cases:", n_b, "4-node:", n_c)
 
